@@ -104,8 +104,8 @@ def run(ctx: Check) -> int:
     unit_cases: list[list] = list(tagrep.exhaustive_unit_ops(ctx.n(2, 3)))
     n_exh = len(unit_cases)
     longer = list(tagrep.exhaustive_unit_ops(ctx.n(3, 4)))[n_exh:]     # one length beyond the exhaustive scope: sampled
-    unit_cases += rng.sample(longer, ctx.n(500, 6000))
-    unit_cases += [tagrep.gen_unit_ops(rng, rng.randrange(8, 40)) for _ in range(ctx.n(250, 5000))]
+    unit_cases += rng.sample(longer, ctx.n(300, 6000))
+    unit_cases += [tagrep.gen_unit_ops(rng, rng.randrange(8, 40)) for _ in range(ctx.n(150, 5000))]
     cache: dict[int, tuple[list[str], list[str]]] = {}
 
     def unit(c):
@@ -140,7 +140,7 @@ def run(ctx: Check) -> int:
     # ---- (B) recorded engine traces + oracle
     cases = corpus_cases()
     n_corpus = len(cases)
-    cases += [tagrep.gen_case(rng, malformed=(i % 6 == 5)) for i in range(ctx.n(50, 1000))]
+    cases += [tagrep.gen_case(rng, malformed=(i % 6 == 5)) for i in range(ctx.n(40, 1000))]
     results: dict[int, dict] = {}
 
     def traced(c):
